@@ -64,8 +64,14 @@ def writer_reader_rule(syn, prop, rule="C05.R6", crate=None):
             r.fail(prop, "import-marker-mismatch %r" % mk, "merge() parses import lines with marker %r, which does not occur in the line generate_imports writes (%r)" % (mk, sample), mg.file(), mg.line())
     # DECLARATION_START
     ds = [it for it in syn.items if it["kind"] == "const" and it["name"] == "DECLARATION_START" and it["file"].endswith("export.rs")]
-    gdb = crate.ibody("export::generate_decl")
-    exp = [t for _, t in M.text_emissions(gdb) if t.strip(M.ARG)] if gdb else []
+    # the literal the file text has directly in front of what comes from T::decl() (symbolic reading of export_to_string)
+    from vlib import symstr as SS
+    ets = crate.body("export::export_to_string")
+    atoms = SS.expand(crate, SS.Sym(crate, ets).returned(), stop=[r"generate_imports$"]) if ets is not None else []
+    exp = []
+    for k, a in enumerate(atoms):
+        if a[0] != "lit" and SS.mentions(a, r"TS::decl$"):
+            exp = [atoms[k - 1][1]] if k and atoms[k - 1][0] == "lit" else ["<no literal>"]
     decl_prefixes = set()
     gdf = syn.fn("DerivedTS::generate_decl_fn", "macros/src/lib.rs")
     if gdf:
